@@ -23,6 +23,12 @@ pub struct Instr {
 }
 
 impl Instr {
+    /// forget everything recorded so far (between a warm-up run and the observed run)
+    pub fn reset(&self) {
+        self.calls.lock().unwrap().clear();
+        self.inflight.store(0, Ordering::SeqCst);
+        self.max_inflight.store(0, Ordering::SeqCst);
+    }
     pub fn n_calls(&self) -> usize {
         self.calls.lock().unwrap().len()
     }
